@@ -6,6 +6,9 @@ CONSTANTS
   Maxes <- MaxesSmall
   Kinds = {1, 2}
   Toggles = FALSE
+  Srvs = {1}
+  Ots <- OtsOne
+  Coes <- CoesOne
 INVARIANT Inv_NothingTwice
 INVARIANT Inv_NothingLost
 INVARIANT Inv_ExactlyTraditional
@@ -13,4 +16,5 @@ INVARIANT Inv_ClosedNotOpen
 INVARIANT Inv_OpenWereIssued
 PROPERTY ClosedStaysClosed
 PROPERTY Monotone
+PROPERTY Isolated
 CHECK_DEADLOCK FALSE
